@@ -18,6 +18,14 @@ package locRIB
 // decided). The Loc-RIB's lock is taken after the lock of the Adj-RIB-In that
 // feeds it and before the locks of the Adj-RIBs-Out it feeds.
 //@ locklevel LocRIB.mu 20
+//@ guarded LocRIB.countTarget by mu
+
+//@ contract (*LocRIB).SetCountTarget
+//@   props C25 C26
+//@   nosafety
+//@   acquires 20
+//@   locks C25
+//@   guards C26
 
 //@ contract (*LocRIB).Dump, (*LocRIB).UpdateNewClient, (*LocRIB).RefreshClient, (*LocRIB).AddPath, (*LocRIB).RemovePath, (*LocRIB).ReplacePath, (*LocRIB).ContainsPfxPath, (*LocRIB).String, (*LocRIB).Print, (*LocRIB).AddPathInitialDump
 //@   props C25 C26
